@@ -53,6 +53,13 @@ def run(ctx):
     corr, viol = standard_run(ctx, "C04", {"term", "crash"}, 600, 10000,
                               ["two_no_sub_cycle_livelock", "optimize_unwatched_objective", "max_regret_ties"])
     var_heuristics(ctx, corr, viol)
+    # every single filtering call returns (per-propagator termination: `Safe`, `C04_port_alldifferent`, `C04_port_gcc`):
+    # each shipped algorithm on its small scope + random + wide cases under a per-call watchdog, outcome compared with the model
+    import gen
+    import props_sweep
+    d, v = props_sweep.sweep(gen.ALGS, ctx["tier"], ctx["seed"] + 4, ctx["report"], {"term", "oob"}, budget=400 if ctx["tier"] == "quick" else 20000)
+    corr += d
+    viol += v
     return {"corr_diffs": corr, "violations": viol, "known": known_witnesses(ctx, "C04"),
             "component": "bcLoop fuel / solveOne fuel vs the real solver under a watchdog",
             "assumptions": ["a watchdog time-out on the implementation is reported as non-termination"]}
